@@ -693,6 +693,10 @@ def run(ck):
     scan_rule(R, 'C02.b', 'ra_malformed_write', 'entries')
     scan_rule(R, 'C02.a', 'ra_writeable', 'areas')
     scan_rule(R, 'C02.e', 'reg_taint_in_range', 'entries')
+    ck.rule('C02.j', 'the overlay reads a register\'s current content through (area, offset) as register_init linked it, the commit goes by address: both describe the same words only if init links every register wholly inside one area with offset = address - base, anew at every initialisation (C04.d / C04.e / C04.g re-evaluated)')
+    from .common import reevaluate
+    reevaluate(ck, 'C02.j', 'c04', lambda r, k: r in ('C04.d', 'C04.g', 'C04.e'),
+               'ra_malformed_write validates the merged image of (stored content, block): the stored content is read at entry->area / entry->offset')
     rule_b(ck, R)
     rule_c(ck, R)
     walker(ck, R, 'register_block_write_unsafe', 'C02.d', 'write')
